@@ -48,9 +48,8 @@ def main():
             ok = "test result: ok" in r.stdout
             return ok, r.stdout[-400:]
         else:
-            shutil.copy(os.path.join(out, demo), os.path.join(wt, demo))
-            r = sh(f"cd {wt} && (CARGO_TARGET_DIR={tgt} bash {demo} > /tmp/seed-demo.out 2>&1; echo DEMO-EXIT=$?); tail -15 /tmp/seed-demo.out")
-            os.remove(os.path.join(wt, demo))
+            # run the script where the agent left it (scripts locate the repository root relative to themselves)
+            r = sh(f"cd {wt} && (CARGO_TARGET_DIR={tgt} bash {os.path.join(out, demo)} > /tmp/seed-demo.out 2>&1; echo DEMO-EXIT=$?); tail -15 /tmp/seed-demo.out")
             return "DEMO-EXIT=0" in r.stdout, r.stdout[-400:]
     ok_with, txt_with = run_demo()
     note(f"demo {demo} with the patch", "fails (as required)" if not ok_with else "PASSES (unexpected)")
